@@ -525,7 +525,21 @@ Definition oracle_check (c : case) : list (Z * Z) :=
 Definition check_oracle := failing oracle_check.
 Definition check_C05 := failing (fun c => codes_in 61 62 (oracle_check c)).
 Definition check_C10 := failing (fun c => codes_in 61 64 (oracle_check c)).
-Definition check_C08 := failing (fun c => codes_in 71 79 (oracle_check c ++ auth_check c)).
+(* 78 in the first block of a chain restarted from an export (height H), a prevote or a vote was accepted although its
+      round id is not the round of H, or a prevote although H is past the prevote window: the restarted chain must
+      publish the round of its first block, whatever the alignment of H with the rounds *)
+Definition count_begins (es : list event) : Z := lenZ (filter (fun e => match e with EvBegin _ => true | _ => false end) es).
+Definition restart_check (c : case) : list (Z * Z) :=
+  let p := op_period (o_params (c_o (cs_init c))) in
+  let h := c_h (cs_init c) + count_begins (cs_events c) + 1 in
+  let k := lenZ (cs_events c) in
+  concat (map (fun pc : omsg * tclass =>
+    match pc with
+    | (MPrevote _ _ _ rid, COk) => if (rid =? rstart h p) && (h <=? prevote_end h p) then [] else [(k, 78)]
+    | (MVote _ _ _ _ rid, COk) => if rid =? rstart h p then [] else [(k, 78)]
+    | _ => []
+    end) (cs_restart c)).
+Definition check_C08 := failing (fun c => codes_in 71 79 (oracle_check c ++ auth_check c ++ restart_check c)).
 Definition check_C14 := failing (fun c => codes_in 90 99 (oracle_check c)).
 
 (* ---------- C19: the NFT stored for an accepted record message is the NFT submitted ----------
